@@ -316,11 +316,37 @@ def run_stream(stream, tier, seed, extra_args=(), timeout=3000, replay=None):
     elif os.path.isdir(corpus):
         cmd += ["-corpus", corpus]
     cmd += list(extra_args)
+    cur = out + ".current"
+    if os.path.exists(cur):
+        os.remove(cur)
+
+    def died(why, text):
+        """the harness process did not finish: if it left the case it was executing, that case is the failing input"""
+        if not os.path.exists(cur):
+            return None
+        try:
+            case = json.load(open(cur))
+        except Exception:
+            return None
+        finally:
+            os.remove(cur)
+        f = {"case": case, "judge": "panic-or-hang: the harness process %s while executing this case" % why, "agree": False,
+             "readable": text[-1500:]}
+        return {"stream": stream, "tier": tier, "seed": seed, "evaluations": 1, "agreements": 0, "distinct_inputs": 1,
+                "distinct_nontrivial": 1, "n_disagreements": 1, "n_judge_failures": 1, "judge_failures": [f],
+                "disagreements": [f], "driver_errors": [], "tags": {"process-died": 1}, "ops": {str(case.get("op")): 1},
+                "obs_kinds": {}, "samples": [], "wall_s": 0}
     try:
         rc, text, dt = run(cmd, cwd=HARNESS, env=GOENV, timeout=timeout)
     except subprocess.TimeoutExpired:
+        s = died("was still running after %ss" % timeout, "")
+        if s:
+            return s, "stream %s timed out" % stream
         return None, "stream %s timed out after %ss" % (stream, timeout)
     if rc != 0 or not os.path.exists(out):
+        s = died("died (exit status %s)" % rc, text)
+        if s:
+            return s, text
         return None, "stream %s failed (rc=%s):\n%s" % (stream, rc, text[-4000:])
     s = json.load(open(out))
     os.remove(out)
